@@ -18,10 +18,9 @@ def Graph.WF (g : Graph E) : Prop :=
 
 instance (g : Graph E) : Decidable g.WF := by unfold Graph.WF; infer_instance
 
-/-- a DataFrame: every column has one cell per index label; no columns means no rows
-    (`DataFrame.to_dict()` of a frame without columns is `{}` and forgets the index) -/
+/-- a DataFrame: one row per index label, one cell per column in every row -/
 def IE.WF (ie : IE) : Prop :=
-  (∀ c ∈ ie.cols, c.2.length = ie.index.length) ∧ (ie.cols = [] → ie.index = [])
+  ie.data.length = ie.index.length ∧ ie.data.all (fun r => r.length == ie.columns.length) = true
 
 instance (ie : IE) : Decidable ie.WF := by unfold IE.WF; infer_instance
 
